@@ -286,7 +286,8 @@ class PTFR(object):
         elif is_llp and len(self.payload) == 0:
             ch7_logger.debug("Adding first LLP buffer len={}".format(len(buffer) + 1))
             self.llp = True
-            self._payload = buffer + struct.pack(">B", 0xFF)
+            self.ptdp_offset = len(buffer) + 1
+            self._payload = buffer + struct.pack(">B", 0x0)
         else:
             ch7_logger.debug("Adding a normal PTDP buffer len={}".format(len(buffer)))
             self._payload += buffer
